@@ -133,6 +133,14 @@ def explicit_combos():
     out.append({'max_seq_len': None})
     out.append({'depth': None, 'max_seq_len': None, 'width': 20})
     out.append({'depth': None, 'indent': 2, 'sort_dict_keys': True})
+    # explicit values that are falsy or equal to a default are values too (a truthiness test, `x or default`, or a comparison
+    # with the default in place of the sentinel test would drop them)
+    out.append({'sort_dict_keys': False})
+    out.append({'depth': 0})
+    out.append({'indent': 0})
+    out.append({'sort_dict_keys': False, 'depth': 0, 'width': 20})
+    out.append({'width': 79, 'ribbon_width': 71, 'indent': 4, 'max_seq_len': 1000})
+    out.append({'width': 300, 'ribbon_width': 400})
     return out
 
 
